@@ -4,14 +4,16 @@ C14 — the bit reader delivers each bit once, in order, under any mix of operat
 Two layers.  `Reader.Rd` models the concrete reader (source, retained buffer, bits_read).  `Cur` is the
 specification machine (the remaining bits as a list).  The operation-script interpreters over both are in
 Model/Script.lean and are run against the real reader on every check.
-(PARTIAL: the refinement is proved operation by operation for peek, skip, read, rollback and commit; the lifting to whole
-nested scripts, and to the start-code and VLC loops over the concrete reader, is carried by the correspondence runs —
-impl = concrete model = specification machine on nested scripts.)
+The refinement is proved operation by operation (peek, read, signed peek / read, skip, VLC read, start-code search, rollback,
+commit) and lifted to whole scripts of any length with transactions, unions and look-aheads nested to any depth
+(`script_refines`).  One documented misuse is excluded: a `commit` inside an open transaction invalidates the checkpoint; at that
+point the real code is run by the correspondence check and the observed behaviour recorded in the evidence.
 -/
 import H263V.Model.Reader
 import H263V.Lemmas.ReaderLemmas
 import H263V.Lemmas.ParseLemmas
 import H263V.Lemmas.PeekLoop
+import H263V.Lemmas.ScriptRefine
 namespace H263V.Thm.C14
 open H263V H263V.Lemmas.ReaderLemmas
 
@@ -130,5 +132,35 @@ theorem start_code_lookahead (inError : Bool) (c : Cur) (r : Option Nat) (c' : C
 /-- The bound on skipped bits is at most one byte of stuffing. -/
 theorem realignment_le (c : Cur) : realignmentBits c + 1 ≤ 8 := by
   unfold realignmentBits; omega
+
+
+open H263V.Script H263V.Lemmas.ScriptRefine H263V.Lemmas.PeekLoop in
+/-- **Whole scripts.**  For every operation script — peeks, reads, signed peeks / reads of any width (0 and > width of the type
+included: both sides report the same error or panic), skips, VLC reads, start-code searches (both modes), transactions that
+succeed or fail, unions returning some / none / error, look-aheads, nested to any depth, with commits between top-level
+operations — for every reader type width ≥ 1, every well-formed reader state and every byte source: the concrete reader prints
+exactly what the specification machine (the list of remaining bits) prints, operation by operation, and is left with exactly the
+specification machine's remaining bits.  In particular every bit is delivered exactly once and in order; failed reads, `Ok(None)`
+unions, failed transactions and look-aheads consume nothing; reading past the end reports end-of-data without consuming; commit
+loses nothing. -/
+theorem script_refines (W : Nat) (hW : 1 ≤ W) (ops : List Op) (hops : ∀ op ∈ ops, TopOK op = true) (r : Reader.Rd) (h : r.WF)
+    (hb : ByteSrc r) :
+    (runTopR W ops r).1 = (runTopS W ops (absC r)).1 ∧ absC (runTopR W ops r).2 = (runTopS W ops (absC r)).2 := by
+  rw [runTopR_eq, runTopS_eq]
+  exact Lemmas.ScriptRefine.script_refines W hW ops hops r (absC r) [] h hb rfl
+
+open H263V.Script H263V.Lemmas.ScriptRefine H263V.Lemmas.PeekLoop in
+/-- A fresh reader over any byte source is well-formed; the theorem's hypotheses are met by every reader the API can build. -/
+theorem fresh_reader_ok (src : List Nat) (hs : ∀ b ∈ src, b < 256) :
+    (⟨src, [], 0⟩ : Reader.Rd).WF ∧ ByteSrc ⟨src, [], 0⟩ := by
+  refine ⟨by simp [Reader.Rd.WF], ?_⟩
+  intro b hb
+  exact hs b (by simpa [Lemmas.ReaderLemmas.total] using hb)
+
+open H263V.Script H263V.Lemmas.ScriptRefine in
+/-- non-vacuity: a script with a failed nested transaction, a union that returns none, a look-ahead, a start-code search, a VLC
+read, signed reads and a commit is covered -/
+example : ∀ op ∈ [Op.rd 3, .tx [.rd 5, .tu [.rs 7, .pk 40] 1, .la [.sk 9, .vl 0]] true, .cm, .sc false, .ps 11, .tx [.rd 64] false],
+    TopOK op = true := by decide
 
 end H263V.Thm.C14
